@@ -1,4 +1,5 @@
 import WacProofs.Lemmas.Targets
+import WacProofs.Lemmas.NameMapFacts
 /-
   C11 — a `targets` verdict means the output really conforms to the world.
 
@@ -184,6 +185,24 @@ theorem resolve_ok_implies_binary_ok (t : Types) (world : Nat) (w : World) (impl
     exact ⟨e, hexactI n e he, hs⟩
   · obtain ⟨k, hk, hs⟩ := hc.2 n e hmem
     exact ⟨k, hexactE n k hk, hs⟩
+
+/-- the same with the `NameMap` facts discharged: it suffices that names are unique inside the
+implicit imports, the declared imports and the output's exports (true of every `IndexMap`), and
+that a name which is both a used interface and a declared import has one kind. -/
+theorem resolve_ok_implies_binary_ok_maps (t : Types) (world : Nat) (w : World) (implicit gi ge : List (Str × ItemKind))
+    (rep : Report)
+    (hw : t.worlds[world]? = some w) (hi : implicitImported t w = some implicit)
+    (hwf : WFResolve t implicit w.imports gi ge w.exports)
+    (hdi : keysDistinct implicit = true) (hde : keysDistinct w.imports = true) (hdg : keysDistinct ge = true)
+    (hagree : ∀ n a b, amGet implicit n = some a → amGet w.imports n = some b → a = b)
+    (hwfi : ∀ n k, (n, k) ∈ gi → WFK t k ∧ ∀ e, (allImports implicit w.imports).get n = some e → WFK t e.promote)
+    (hwfe : ∀ n e, (n, e) ∈ w.exports → WFK t e.promote ∧ ∀ k, (nameMapOf ge).get n = some k → WFK t k)
+    (hok : resolveValidateTarget t world gi ge = .ok)
+    (hrep : binaryValidateLists t w gi ge = some rep) :
+    rep.isOk = true :=
+  resolve_ok_implies_binary_ok t world w implicit gi ge rep hw hi hwf
+    (fun n e h => allImports_get_exact implicit w.imports hdi hde hagree n e h)
+    (fun n k h => nameMapOf_get_exact ge hdg n k h) hwfi hwfe hok hrep
 
 /-! ### concrete witnesses -/
 
